@@ -13,6 +13,18 @@ Case format (one JSON object; shared by the model driver, the implementation run
   tag:  "pos": [x, ...], "ext": [x, ...]   ([] = nothing stored)
   mtag: "pos": {"r": 1, "v": [x, ...]} | {"r": 2, "c": ncols, "v": [[x, ...], ...]},  "ext": null | the same
 
+Addressing (optional): without "addr" the reference `refidx` / the last feature is taken by its index.
+   "addr": {"by": "idx", "i": i}                          an int (negative: from the end)
+         | {"by": "name" | "id" | "object", "of": j}      the name / id / entity object of reference j   (op = tagged)
+         | {"by": "fid" | "dname" | "did" | "object", "of": j}   feature j's id, its data array's name / id, the Feature
+         | {"by": "text", "s": s}                         a text that names nothing
+         | {"by": "absent-id"}                            a well-formed id of nothing
+         | {"by": "float"}                                1.0
+   "churn": true        op = tagged: the case's array is first linked in front, later removed and linked again at `refidx`
+   "flist": [[link, on_case_array], ...]   op = feature: the features in creation order (others are on dummy arrays)
+ the reference list is: the case's array at position `refidx`, dummy arrays (shape [4], unlabelled set dimension)
+ elsewhere.  With "addr" the outcome carries "on": "T" (the case's array) or "D<m>" (dummy m).
+
 Numbers that are floats in Python travel as the exact rational "num/den" of the double.
 Outcome (both sides): {"ok": {"valid": true, "window": [[a, b], ...], "read": "window"}}  — a valid view whose
 `[:]` equals NumPy's `data[a:b, ...]` on an in-memory copy; {"ok": {"valid": false, "read": "empty"}}; {"err": class}.
@@ -39,6 +51,11 @@ THEOREMS = [
     "Nix.C08.C08_region_multi",
     "Nix.C08.C08_feature_tag",
     "Nix.C08.C08_feature_multi",
+    "Nix.C08.C08_reference_lookup",
+    "Nix.C08.C08_tagged_by_key",
+    "Nix.C08.C08_region_by_key",
+    "Nix.C08.C08_feature_lookup",
+    "Nix.C08.C08_feature_by_key",
     "Nix.C08.C08_axis_full_counterexample",
 ]
 ASSUMPTIONS = [
@@ -153,6 +170,7 @@ class Impl:
         self.blk = self.f.create_block("b", "t")
         self.arrs = {}
         self.holders = {}
+        self.hinfo = {}
         self.posarrs = {}
         self.n = 0
         self.calls = 0
@@ -161,6 +179,7 @@ class Impl:
             d = self.blk.create_data_array("dummy%d" % j, "t", data=np.arange(4.0) + 100 * j)
             d.append_set_dimension()
             self.dummies.append(d)
+        self.dummy_base = [np.arange(4.0) + 100 * j for j in range(3)]
 
     def close(self):
         try:
@@ -220,44 +239,78 @@ class Impl:
     def holder(self, case, ent):
         """the Tag / MultiTag carrying the references / features the case asks for"""
         k, op = case["k"], case["op"]
-        key = [ent["key"], k, op, case.get("nrefs"), case.get("refidx"), case.get("nfeats"), case.get("link")]
+        key = [ent["key"], k, op, case.get("nrefs"), case.get("refidx"), case.get("nfeats"), case.get("link"),
+               case.get("churn"), case.get("flist")]
         if k == "mtag":
             key += [core.canon(case["pos"]), core.canon(case["ext"])]
         key = core.canon(key)
         h = self.holders.get(key)
         if h is not None:
-            return h
+            return h, self.hinfo[key]
         if k == "tag":
             h = self.blk.create_tag(self.fresh("t"), "t", [0.0])
         else:
             h = self.blk.create_multi_tag(self.fresh("m"), "t", self.posarr(case["pos"]))
             if case["ext"] is not None:
                 h.extents = self.posarr(case["ext"])
+        info = {"arrays": [], "feats": []}
         if op == "tagged":
             nrefs, refidx = case["nrefs"], case["refidx"]
+            churn = bool(case.get("churn")) and refidx < nrefs
+            if churn:
+                h.references.append(ent["da"])
             dj = 0
             for j in range(nrefs):
                 if j == refidx:
+                    if churn:
+                        del h.references[ent["da"].name]
                     h.references.append(ent["da"])
+                    info["arrays"].append(ent["da"])
                 else:
                     h.references.append(self.dummies[dj])
+                    info["arrays"].append(self.dummies[dj])
                     dj += 1
         else:
-            nf = case["nfeats"]
-            for j in range(nf):
-                if j == nf - 1:
-                    h.create_feature(ent["da"], case["link"])
-                else:
-                    h.create_feature(self.dummies[j], "untagged")
+            for j, (lk, on) in enumerate(feature_list(case)):
+                arr = ent["da"] if on else self.dummies[j % 3]
+                info["feats"].append(h.create_feature(arr, lk))
+                info["arrays"].append(arr)
         self.holders[key] = h
-        return h
+        self.hinfo[key] = info
+        return h, info
+
+    def pykey(self, case, info):
+        """the Python object the case addresses the reference / feature with"""
+        a = case["addr"]
+        by = a["by"]
+        if by == "idx":
+            return a["i"]
+        if by == "text":
+            return a["s"]
+        if by == "absent-id":
+            return "01234567-89ab-4def-8123-456789abcdef"
+        if by == "float":
+            return 1.0
+        j = a["of"]
+        if case["op"] == "tagged":
+            arr = info["arrays"][j]
+            return {"name": arr.name, "id": arr.id, "object": arr}[by]
+        f = info["feats"][j]
+        return {"fid": f.id, "dname": info["arrays"][j].name, "did": info["arrays"][j].id, "object": f}[by]
 
     def run(self, case):
         np = self.np
         self.calls += 1
         try:
             ent = self.array(case["shape"], case["dims"])
-            h = self.holder(case, ent)
+            h, info = self.holder(case, ent)
+            addressed = "addr" in case
+            if addressed:
+                pk = self.pykey(case, info)
+            elif case["op"] == "tagged":
+                pk = case["refidx"]
+            else:
+                pk = max(case["nfeats"] - 1, 0)
         except Exception as e:
             return {"bad": "setup failed: %s: %s" % (type(e).__name__, str(e)[:120])}
         stop = getattr(self.nix.SliceMode, case["stop"])
@@ -271,36 +324,152 @@ class Impl:
         try:
             if case["k"] == "tag":
                 if case["op"] == "tagged":
-                    v = h.tagged_data(case["refidx"], stop)
+                    v = h.tagged_data(pk, stop)
                 else:
-                    v = h.feature_data(max(case["nfeats"] - 1, 0), stop)
+                    v = h.feature_data(pk, stop)
             else:
                 if case["op"] == "tagged":
-                    v = h.tagged_data(case["idx"], case["refidx"], stop)
+                    v = h.tagged_data(case["idx"], pk, stop)
                 else:
-                    v = h.feature_data(case["idx"], max(case["nfeats"] - 1, 0), stop)
+                    v = h.feature_data(case["idx"], pk, stop)
             valid = bool(v.valid)
             data = np.asarray(v[:])
         except Exception as e:
             return {"err": errname(e)}
+        # which array the view is on
+        label, base = "T", ent["base"]
+        if addressed:
+            nm = v.array.name
+            if nm != ent["da"].name:
+                label, base = "?", None
+                for m, d in enumerate(self.dummies):
+                    if d.name == nm:
+                        label, base = "D%d" % m, self.dummy_base[m]
+        extra = {"on": label} if addressed else {}
         if not valid:
-            return {"ok": {"valid": False, "read": "empty" if data.size == 0 else "DATA(%s)" % (data.shape,)}}
+            return {"ok": dict({"valid": False, "read": "empty" if data.size == 0 else "DATA(%s)" % (data.shape,)},
+                               **extra)}
         win = [[int(s.start), int(s.stop)] for s in v._slices]
         try:
-            want = ent["base"][tuple(slice(a, b) for a, b in win)]
+            want = base[tuple(slice(a, b) for a, b in win)]
             same = want.shape == data.shape and bool(np.array_equal(want, data))
         except Exception:
             same = False
-        return {"ok": {"valid": True, "window": win, "read": "window" if same else "OTHER-DATA"}}
+        return {"ok": dict({"valid": True, "window": win, "read": "window" if same else "OTHER-DATA"}, **extra)}
 
 
-def model_out(m):
+def model_out(m, case=None):
     """driver output in the outcome schema"""
     if "ok" not in m:
         return m
+    extra = {}
+    if case is not None and "addr" in case:
+        k = m["ok"].get("on")
+        labels = array_labels(case)
+        extra = {"on": labels[k] if isinstance(k, int) and 0 <= k < len(labels) else "?"}
     if m["ok"]["valid"]:
-        return {"ok": {"valid": True, "window": m["ok"]["window"], "read": "window"}}
-    return {"ok": {"valid": False, "read": "empty"}}
+        return {"ok": dict({"valid": True, "window": m["ok"]["window"], "read": "window"}, **extra)}
+    return {"ok": dict({"valid": False, "read": "empty"}, **extra)}
+
+
+def feature_list(case):
+    """[(link, on the case's array)] in creation order"""
+    fl = case.get("flist")
+    if fl is not None:
+        return [tuple(x) for x in fl]
+    nf = case["nfeats"]
+    return [("untagged", False)] * max(nf - 1, 0) + ([(case["link"], True)] if nf > 0 else [])
+
+
+def array_labels(case):
+    """per reference / feature position: "T" (the case's array) or "D<m>" (dummy m)"""
+    if case["op"] == "tagged":
+        out, dj = [], 0
+        for j in range(case["nrefs"]):
+            if j == case["refidx"]:
+                out.append("T")
+            else:
+                out.append("D%d" % dj)
+                dj += 1
+        return out
+    return ["T" if on else "D%d" % (j % 3) for j, (_, on) in enumerate(feature_list(case))]
+
+
+def to_model(case):
+    """the driver's form of a case: keys, ids and names made canonical (ids "i<label>", names "n<label>",
+    feature ids "f<j>"); `is_uuid` is true exactly for ids"""
+    if "addr" not in case:
+        return case
+    c = {k: v for k, v in case.items() if k not in ("addr", "churn", "flist")}
+    labels = array_labels(case)
+    a = case["addr"]
+    by = a["by"]
+    if by == "idx":
+        key = ["idx", a["i"]]
+    elif by == "text":
+        key = ["text", a["s"], False]
+    elif by == "absent-id":
+        key = ["text", "iNOTHING", True]
+    elif by in ("float", "object"):
+        key = ["other"]
+    elif by == "name" or by == "dname":
+        key = ["text", "n" + labels[a["of"]], False]
+    elif by == "id" or by == "did":
+        key = ["text", "i" + labels[a["of"]], True]
+    elif by == "fid":
+        key = ["text", "f%d" % a["of"], True]
+    else:
+        raise ValueError("addr: " + by)
+    c["key"] = key
+    if case["op"] == "tagged":
+        c["refs"] = [["i" + l, "n" + l] for l in labels]
+    else:
+        c["feats"] = [["f%d" % j, "i" + labels[j], "n" + labels[j], lk, bool(on)]
+                      for j, (lk, on) in enumerate(feature_list(case))]
+    return c
+
+
+DUMMY_SHAPE, DUMMY_DIMS = [4], [["set", 0]]
+
+
+def designate(case):
+    """what an addressed case asks for, by the property: ("ok", index-addressed equivalent on the designated array,
+    label) | ("refuse", why) | ("skip", why)"""
+    a = case["addr"]
+    by = a["by"]
+    labels = array_labels(case)
+    n = len(labels)
+    if n == 0:
+        return ("refuse", "nothing to address")
+    if by == "idx":
+        i = a["i"]
+        if 0 <= i < n:
+            j = i
+        elif -n <= i < 0:
+            j = n + i
+        else:
+            return ("refuse", "index outside the list")
+    elif by in ("text", "absent-id", "float"):
+        return ("refuse", "the key designates nothing")
+    elif by == "object":
+        return ("skip", "an entity object as key: the property does not say")
+    elif by in ("dname", "did"):
+        cands = [j for j in range(n) if labels[j] == labels[a["of"]]]
+        fl = feature_list(case)
+        if len({fl[j][0] for j in cands}) > 1:
+            return ("skip", "several features with different link types on the addressed array")
+        j = cands[0]
+    else:
+        j = a["of"]
+    c = {k: v for k, v in case.items() if k not in ("addr", "churn", "flist")}
+    if labels[j] != "T":
+        c["shape"], c["dims"] = DUMMY_SHAPE, DUMMY_DIMS
+    if case["op"] == "tagged":
+        c["refidx"] = j
+    else:
+        c["link"] = feature_list(case)[j][0]
+        c["nfeats"] = n
+    return ("ok", c, labels[j])
 
 
 # ---------------------------------------------------------------------------------------
@@ -412,7 +581,23 @@ def prescaled(case, regs, which="flt"):
 
 def classify(case):
     """'exact' (every float operation on the path is exact), 'float' (needs the model-side margin test) or
-    'plain' (no float subtlety: refusals decided before any arithmetic)"""
+    'plain' (no float subtlety: refusals decided before any arithmetic).  An addressed case is classified on the
+    array (and with the link type) its key designates."""
+    if "addr" in case:
+        d = designate(case)
+        if d[0] != "ok":
+            # an entity object / ambiguous data name: classify on whichever the code may pick (all candidates share
+            # the array); a key that designates nothing: no arithmetic
+            if d[0] == "skip" and case["addr"]["by"] in ("dname", "did"):
+                labels = array_labels(case)
+                j = [k for k in range(len(labels)) if labels[k] == labels[case["addr"]["of"]]][0]
+                c = {k: v for k, v in case.items() if k not in ("addr", "churn", "flist")}
+                if labels[j] != "T":
+                    c["shape"], c["dims"] = DUMMY_SHAPE, DUMMY_DIMS
+                c["link"], c["nfeats"] = "tagged", len(labels)
+                return classify(c)
+            return "plain", None
+        return classify(d[1])
     if case["op"] == "feature" and case["link"] != "tagged":
         return "plain", None
     regs = axis_regions(case)
@@ -570,6 +755,61 @@ def axis_dim(ax):
     return ["set", ax["nl"]]
 
 
+def gen_flist(rng, link):
+    """a feature list holding the case's feature (its link type, on the case's array) somewhere"""
+    m = rng.choice([1, 2, 2, 3, 4])
+    fl = [[rng.choice(LINKS), rng.random() < 0.4] for _ in range(m)]
+    at = rng.randrange(m)
+    fl[at] = [link, True]
+    return fl, at
+
+
+def gen_addr(rng, c, at=None):
+    """address the reference / feature of a case by name, id, (negative) index, or by something that names nothing"""
+    r = rng.random()
+    if c["op"] == "tagged":
+        n = c["nrefs"]
+        if n == 0 or c["refidx"] >= n:
+            return
+        j = rng.randrange(n) if rng.random() < 0.3 else c["refidx"]
+        if r < 0.27:
+            c["addr"] = {"by": "name", "of": j}
+        elif r < 0.54:
+            c["addr"] = {"by": "id", "of": j}
+        elif r < 0.76:
+            c["addr"] = {"by": "idx", "i": rng.choice([j - n, j - n, j - n, j, -n - 1, n, n + 2])}
+        elif r < 0.84:
+            c["addr"] = {"by": "text", "s": rng.choice(["no such array", "dummy9", ""])}
+        elif r < 0.9:
+            c["addr"] = {"by": "absent-id"}
+        elif r < 0.95:
+            c["addr"] = {"by": "object", "of": j}
+        else:
+            c["addr"] = {"by": "float"}
+        return
+    fl = feature_list(c)
+    n = len(fl)
+    if n == 0:
+        return
+    j = rng.randrange(n) if (at is None or rng.random() < 0.3) else at
+    if r < 0.2:
+        c["addr"] = {"by": "fid", "of": j}
+    elif r < 0.42:
+        c["addr"] = {"by": "dname", "of": j}
+    elif r < 0.6:
+        c["addr"] = {"by": "did", "of": j}
+    elif r < 0.8:
+        c["addr"] = {"by": "idx", "i": rng.choice([j - n, j - n, j, j, -n - 1, n, n + 2])}
+    elif r < 0.87:
+        c["addr"] = {"by": "text", "s": rng.choice(["no such array", "dummy9"])}
+    elif r < 0.92:
+        c["addr"] = {"by": "absent-id"}
+    elif r < 0.96:
+        c["addr"] = {"by": "object", "of": j}
+    else:
+        c["addr"] = {"by": "float"}
+
+
 def gen_scenario(rng, kmode=None):
     """an array + units + a handful of regions; returns a list of cases"""
     rank = rng.choice([1, 1, 1, 2, 2, 3])
@@ -612,6 +852,12 @@ def gen_scenario(rng, kmode=None):
                 units[d] = rng.choice(PREFS) + b2
             else:
                 units[d] = "mV"
+    if units and style == "units":
+        r = rng.random()
+        if r < 0.08 and min(plen, rank) >= 2:
+            units = units[:min(plen, rank) - 1]                          # fewer units than positions: refused
+        elif r < 0.14 and plen < rank:
+            units = units[:max(plen, 1)]                                 # as many units as positions (< rank): fine
     nrows = rng.choice([4, 6, 8])
     rows = []
     for _ in range(nrows):
@@ -625,6 +871,7 @@ def gen_scenario(rng, kmode=None):
     cases = []
     base = {"shape": shape, "dims": dims, "units": units}
     feat = rng.random() < 0.3
+    addressed = rng.random() < 0.35
     # --- Tag cases
     ext_style = rng.choice(["full"] * 5 + ["none", "short"])
     for pr, er in rows[: rng.choice([2, 3, 4])]:
@@ -640,10 +887,18 @@ def gen_scenario(rng, kmode=None):
                 c.update(op="feature", nfeats=rng.choice([1, 2, 0] if rng.random() < 0.1 else [1, 2]),
                          link=rng.choice(LINKS))
             else:
-                nrefs = rng.choice([1, 1, 1, 2, 3])
+                nrefs = rng.choice([1, 1, 1, 2, 3, 4])
                 c.update(op="tagged", nrefs=nrefs, refidx=rng.randrange(nrefs))
                 if rng.random() < 0.02:
                     c.update(nrefs=rng.choice([0, 1]), refidx=rng.choice([1, 2]))
+            if addressed:
+                at = None
+                if c["op"] == "feature" and c["nfeats"] > 0 and rng.random() < 0.7:
+                    c["flist"], at = gen_flist(rng, c["link"])
+                    c["nfeats"] = len(c["flist"])
+                elif c["op"] == "tagged" and rng.random() < 0.4:
+                    c["churn"] = True
+                gen_addr(rng, c, at)
             cases.append(c)
     # --- MultiTag cases: one positions array holding all rows
     if plen >= 1:
@@ -667,17 +922,29 @@ def gen_scenario(rng, kmode=None):
             ext = {"r": 2, "c": plen + 1, "v": [er + ["0/1"] for _, er in rows]}      # other width / rank
         link = rng.choice(LINKS)
         nfeats = rng.choice([1, 2])
-        nrefs = rng.choice([1, 1, 2])
+        nrefs = rng.choice([1, 1, 2, 3])
         refidx = rng.randrange(nrefs)
         if rng.random() < 0.02:
             refidx = nrefs
+        flist, at, churn = None, None, False
+        if addressed:
+            if feat and rng.random() < 0.7:
+                flist, at = gen_flist(rng, link)
+                nfeats = len(flist)
+            churn = (not feat) and rng.random() < 0.4
         for i in list(range(nrows)) + [nrows, nrows + 3]:
             for stop in (STOPS if i < nrows else [rng.choice(STOPS)]):
                 c = dict(base, k="mtag", pos=pos, ext=ext, stop=stop, idx=i)
                 if feat:
                     c.update(op="feature", nfeats=nfeats, link=link)
+                    if flist is not None:
+                        c["flist"] = flist
                 else:
                     c.update(op="tagged", nrefs=nrefs, refidx=refidx)
+                    if churn:
+                        c["churn"] = True
+                if addressed:
+                    gen_addr(rng, c, at)
                 cases.append(c)
         if feat and link == "indexed":
             for i in [shape[0] - 1, shape[0], shape[0] + 1]:
@@ -794,17 +1061,17 @@ def correspondence(ctx):
     cases = corpus + gen
     tags = ["corpus"] * len(corpus) + tags
     cls = [classify(c) for c in cases]
-    mouts = [model_out(m) for m in core.run_driver(PROP, cases)]
+    mouts = [model_out(m, c) for m, c in zip(core.run_driver(PROP, [to_model(c) for c in cases]), cases)]
     # margin test (float class): the unit-less variant carrying the float-path positions must give the same answer
     need = [k for k, (cl, _) in enumerate(cls)
             if cl == "float" and ("ok" in mouts[k] or mouts[k].get("err") in REFUSALS_INDEX)]
-    m2 = core.run_driver(PROP, [prescaled(cases[k], cls[k][1]) for k in need]) if need else []
-    alt = {k: model_out(m) for k, m in zip(need, m2)}
+    m2 = core.run_driver(PROP, [to_model(prescaled(cases[k], cls[k][1])) for k in need]) if need else []
+    alt = {k: model_out(m, cases[k]) for k, m in zip(need, m2)}
     impl = Impl(ctx, "corr")
     disagreements = []
     seen = set()
     dist = {"ops": {}, "class": {}, "impl_outcome": {}, "rank": {}, "dim_kinds": {}, "link": {}, "stop": {},
-            "scale_exponent": {}, "positions": {}}
+            "scale_exponent": {}, "positions": {}, "addressed_by": {}, "units_vs_positions": {}, "extent": {}}
     compared = 0
     marginal_differ = 0
     try:
@@ -826,6 +1093,16 @@ def correspondence(ctx):
                 _bump(dist["link"], c["link"])
             if c["k"] == "mtag":
                 _bump(dist["positions"], "%d-D" % c["pos"]["r"])
+            _bump(dist["addressed_by"], c["addr"]["by"] + (".churn" if c.get("churn") else "") if "addr" in c
+                  else "index")
+            rows_ = tag_rows(c)
+            if rows_ is not None:
+                np_, nu_ = min(len(rows_[0]), len(c["dims"])), len(c["units"])
+                _bump(dist["units_vs_positions"], "no units" if nu_ == 0 else
+                      ("fewer" if nu_ < np_ else ("equal" if nu_ == np_ else "more")))
+                _bump(dist["extent"], "none" if not rows_[1] else
+                      ("all zero" if all(F(x) == 0 for x in rows_[1]) else
+                       ("shorter" if len(rows_[1]) < len(rows_[0]) else "full")))
             for d in range(len(c["dims"])):
                 au = axis_units(c, d) if c["units"] else ("none",)
                 if au[0] == "scale":
@@ -1038,12 +1315,30 @@ def site_of(case):
 
 def check_case(impl, case):
     """(Failure | None, note)"""
-    req = requirement(case)
+    label = None
+    if "addr" in case:
+        # the key designates a reference / feature: the result must be what the property demands of *that* one
+        d = designate(case)
+        if d[0] == "skip":
+            return None, "skipped"
+        if d[0] == "refuse":
+            req = ("refuse-any", d[1]) if well_formed(case) else ("skip", "")
+        else:
+            req = requirement(d[1])
+            label = d[2]
+    else:
+        req = requirement(case)
     if req[0] == "skip":
         return None, "skipped"
     got = impl.run(case)
     if "bad" in got:
         return None, "setup"
+    if "ok" in got and "on" in got["ok"]:
+        on = got["ok"]["on"]
+        got = {"ok": {k: v for k, v in got["ok"].items() if k != "on"}}
+        if got["ok"]["valid"] and label is not None and on != label:
+            return Failure("the data returned is taken from another array (%s) than the one the key designates (%s)"
+                           % (on, label), case, dict(got, on=on), "data of the designated array", site_of(case)), "fail"
     if req[0] == "refuse-any":
         if _is_refusal(got, REFUSALS_ANY):
             return None, "refused"
